@@ -103,7 +103,7 @@ func (x *Exec) callFn(st *State, fn *ssa.Function, bind []*Val, args []*Val, pos
 	if h, ok := x.w.intrinsic(fn); ok {
 		return h(x, st, fn, args, pos)
 	}
-	if x.inlineNames[fn.Name()] && fn.Blocks != nil {
+	if x.inlineNames[fn.Name()] && fn.Blocks != nil && fn.Signature.Recv() != nil && x.unitFn != nil && fn.Pkg == x.unitFn.Pkg {
 		// bounded harness: this callee is executed itself (loops unrolled), its own callees
 		// are still replaced by their contracts
 		x.calls["inlined (bounded harness): "+name]++
@@ -519,7 +519,11 @@ func (x *Exec) callOpaque(st *State, fn *ssa.Function, con *Contract, args []*Va
 	key := fmt.Sprintf("sf:%s/%d", fn.Name(), len(flat))
 	app := tb.App(key, cs[0].sort, flat...)
 	res := &Val{T: rt, C: []*Term{app}}
-	if x.unfolding[fn] == 0 {
+	depth := 1
+	if x.harnessUnroll > 0 {
+		depth = x.harnessUnroll // bounded harness: unfold far enough for the bounded lists
+	}
+	if x.unfolding[fn] < depth {
 		x.unfolding[fn]++
 		vals, err := func() ([]*Val, error) {
 			x.ghost++
@@ -801,6 +805,25 @@ func init() {
 	intrinsics["gocv_sliceOff"] = func(x *Exec, st *State, fn *ssa.Function, args []*Val, pos token.Pos) ([]*Val, error) {
 		return []*Val{x.intVal(args[0].C[1])}, nil
 	}
+	// gocv_lastEncoder(): the *csproto.Encoder most recently allocated in this unit (lets a
+	// harness observe the write cursor of an inlined MarshalTo)
+	intrinsics["gocv_lastEncoder"] = func(x *Exec, st *State, fn *ssa.Function, args []*Val, pos token.Pos) ([]*Val, error) {
+		rt := fn.Signature.Results().At(0).Type()
+		et := rt.Underlying().(*types.Pointer).Elem()
+		r, ok := x.lastAlloc[typeKey(et)]
+		if !ok {
+			return nil, fmt.Errorf("gocv_lastEncoder: no %s was allocated in this unit", et)
+		}
+		return []*Val{{T: rt, C: []*Term{r}}}, nil
+	}
+	// gocv_wellFormed(v any): a value stored in a message field is well formed: an interface
+	// holding a pointer (oneof wrapper) does not hold a typed nil pointer.
+	intrinsics["gocv_wellFormed"] = func(x *Exec, st *State, fn *ssa.Function, args []*Val, pos token.Pos) ([]*Val, error) {
+		tb := x.tb
+		v := args[0]
+		// the argument arrives as `any`; an interface value converted to any keeps (typ, val)
+		return []*Val{x.boolVal(tb.Or(tb.Eq(v.C[0], tb.BV(32, 0)), tb.Ne(v.C[1], tb.BV(64, 0))))}, nil
+	}
 	intrinsics["gocv_strview"] = func(x *Exec, st *State, fn *ssa.Function, args []*Val, pos token.Pos) ([]*Val, error) {
 		tb := x.tb
 		b, s := args[0], args[1]
@@ -1049,6 +1072,23 @@ func init() {
 		return []*Val{x.intVal(x.tb.Len64(args[0].C[0]))}, nil
 	}
 	externals["fmt.Errorf"] = hErrorf
+	externals["sync/atomic.LoadInt32"] = func(x *Exec, st *State, fn *ssa.Function, args []*Val, pos token.Pos) ([]*Val, error) {
+		p := args[0]
+		x.nonNil(st, p, pos, "atomic load")
+		t := types.Typ[types.Int32]
+		return []*Val{x.load(st, x.addrOf(p, t), t)}, nil
+	}
+	externals["sync/atomic.StoreInt32"] = func(x *Exec, st *State, fn *ssa.Function, args []*Val, pos token.Pos) ([]*Val, error) {
+		p := args[0]
+		x.nonNil(st, p, pos, "atomic store")
+		t := types.Typ[types.Int32]
+		ad := x.addrOf(p, t)
+		x.checkFrame(st, ad, pos)
+		v := *args[1]
+		v.T = t
+		x.store(st, ad, &v)
+		return nil, nil
+	}
 	externals["errors.New"] = func(x *Exec, st *State, fn *ssa.Function, args []*Val, pos token.Pos) ([]*Val, error) {
 		r := x.alloc(st, "err")
 		return []*Val{{T: fn.Signature.Results().At(0).Type(), C: []*Term{x.tb.BV(32, x.w.namedTypeID("*errors.errorString")), r}}}, nil
